@@ -24,6 +24,7 @@ import OpyVerif.Generated.SelectDefs
 import OpyVerif.Generated.HeapOpsDefs
 import OpyVerif.Generated.OpsDefs
 import OpyVerif.Generated.GrowDefs
+import OpyVerif.Generated.PopLoopsDefs
 import OpyVerif.Generated.ClipLoopsDefs
 /-
 Line-protocol driver: runs the *executable model definitions* on inputs sent by the Python
@@ -175,6 +176,26 @@ def step (d : DState) (line : String) : DState × String :=
     | some f, some m, some pf, some pm =>
       (d, match Opy.runCross Opy.Gen.crossFrame.cond Opy.Gen.crossBody f m pf pm with
           | some (a, b) => canonTree a ++ " " ++ canonTree b | none => "error")
+    | _, _, _, _ => (d, "bad-op")
+  -- `GP._mutation` / `GP._crossover` as the translator read them, on a whole population
+  | ["w.mutation", trees, next, sel, points, grown] =>
+    let ts? := if trees == "-" then some [] else (trees.splitOn ";").mapM parseTree
+    let gs? := if grown == "-" then some [] else (grown.splitOn ";").mapM parseTree
+    match ts?, next.toNat?, parseNats sel, parseNats points, gs? with
+    | some ts, some nx, some sel, some pts, some gs =>
+      (d, match Opy.Gen.mutLoop.run ⟨ts, .nil, nx⟩ sel pts gs with
+          | some P => ";".intercalate (P.trees.map canonTree) | none => "error")
+    | _, _, _, _, _ => (d, "bad-op")
+  | ["w.crossover", trees, next, sel, draws] =>
+    let ts? := if trees == "-" then some [] else (trees.splitOn ";").mapM parseTree
+    let dr? : Option (List (Nat × Nat)) := if draws == "-" then some [] else (draws.splitOn ";").mapM fun tok =>
+      match tok.splitOn "," with
+      | [a, b] => match a.toNat?, b.toNat? with | some a, some b => some (a, b) | _, _ => none
+      | _ => none
+    match ts?, next.toNat?, parseNats sel, dr? with
+    | some ts, some nx, some sel, some dr =>
+      (d, match Opy.Gen.crossLoop.run ⟨ts, .nil, nx⟩ sel dr with
+          | some P => ";".intercalate (P.trees.map canonTree) | none => "error")
     | _, _, _, _ => (d, "bad-op")
   | ["w.grow", funcs, nT, k, draws] => match parseNats funcs, nT.toNat?, k.toNat?, parseNats draws with
     | some fs, some nT, some k, some ds =>
